@@ -4,6 +4,10 @@ import json, subprocess
 checks = {
  "C01": ("exploration", "Seeded simulation of TransactionSet histories against the real datastore, tree, cache (badger) and schema store on a fake clock; the device state is compared with an executable merge model after every accepted transaction. Sampling, not proof: thousands of distinct histories per minute.", "4 C01"),
  "C02": ("exploration", "Same simulated histories; the complete intended store is dumped through the undecorated cache client after every step and compared, entry by entry, with the model's last accepted version of every intent.", "4 C02"),
+ "C05": ("exploration", "Histories plus one unconfirmed transaction ended by cancel or by fake-clock expiry; intended store and touched device paths compared with the snapshot from before the transaction.", "4 C05"),
+ "C06": ("exploration", "Seeded operation sequences (Set valid/invalid/dry-run/device-error, Confirm/Cancel with matching/stale/unknown ids, waits around the deadline) on the fake clock, judged by a transaction-slot reference model with a liveness probe.", "4 C06"),
+ "C09": ("exploration", "Histories with verbatim re-submissions in every input form; the proto, JSON, JSON_IETF and 8 XML renderings of the same tree instance must be empty and both stores unchanged.", "4 C09"),
+ "C16": ("exploration", "Seeded cooperative scheduler over yield points at every transaction-manager lock acquisition and timer event: Confirm/Cancel/expiry/competing Set interleavings on the real Datastore; exactly-once, agreement with client answers, process survival, porcupine linearizability against the slot model.", "4 C16"),
 }
 def hooks_commits():
     out = subprocess.run(["git","-C","/repo","log","--format=%h %s"],capture_output=True,text=True).stdout.splitlines()
